@@ -2,7 +2,7 @@
 from .condfam import *
 from oracle.isserlis import E_forms
 PROPERTY = "C14"
-LEAN_MODULES = ["GT.Props.C14"]
+LEAN_MODULES = ["GT.Props.C14", "GT.Props.C14Feature"]
 ASSUMPTIONS = ["float64 rounding outside the theorems; feature models: Gauss-Hermite reference, Dx <= 2"]
 
 
